@@ -402,7 +402,7 @@ func (c *Ctx) SaveProducesNothing(ob *core.Obligation, r *Roles) {
 	}
 	reach := c.P.Reachable(fn)
 	for g := range reach {
-		if g == r.PushSender.Fn || g == r.PushReceiver.Fn || (returnsPostings(g) && buildsPostings(g, r)) {
+		if g == r.PushSender.Fn || g == r.PushReceiver.Fn || c.IsReconciler(g, r) {
 			ob.Fail(key, c.P.Pos(fn.Pos()), "save can reach "+g.Name()+": it would move funds")
 			return
 		}
